@@ -238,6 +238,66 @@ func (g *c06Gen) include(depth int, files []string) *c06Tpl {
 
 func init() { streams["C06"] = runC06 }
 
+// a <slot> written inside content that a template supplies to a component belongs to that template: at top level
+// (a page, a string template, a layout) nothing was supplied to it, so it shows its own fallback - also when the same
+// include tag supplies a slot of that name to the component; inside a component it shows what that component was given
+func c06SlotInSuppliedContent(r *Run) {
+	m := fstest.MapFS{
+		"panel.vuego": &fstest.MapFile{Data: []byte(`<section><h2><slot name="title">no-title</slot></h2><div><slot>no-body</slot></div><footer><slot name="footer">no-footer</slot></footer></section>`)},
+		"page.vuego":  &fstest.MapFile{Data: []byte(`<template include="panel.vuego"><template #title><b>{{ heading }}</b></template><template #footer><i><slot name="title">Untitled page</slot></i></template><p><slot name="footer">page-fallback</slot></p></template>`)},
+		"site.vuego":  &fstest.MapFile{Data: []byte(`<template include="wrap.vuego"><template #title><u>site-title</u></template></template>`)},
+		"wrap.vuego":  &fstest.MapFile{Data: []byte(`<template include="panel.vuego"><template #title><b>inner</b></template><template #footer><i><slot name="title">wrap-fallback</slot></i></template></template>`)},
+	}
+	norm := func(s string) string { return strings.Join(strings.Fields(s), "") }
+	wantPage := norm(`<section><h2><b>Inbox</b></h2><div><p>page-fallback</p></div><footer><i>Untitled page</i></footer></section>`)
+	wantSite := norm(`<section><h2><b>inner</b></h2><div>no-body</div><footer><i><u>site-title</u></i></footer></section>`)
+	for _, c := range []struct{ name, entry, file, want string }{
+		{"top-level-file", "render", "page.vuego", wantPage}, {"top-level-load", "load", "page.vuego", wantPage}, {"top-level-string", "string", "page.vuego", wantPage},
+		{"forwarded-by-a-component", "render", "site.vuego", wantSite}, {"forwarded-by-a-component-load", "load", "site.vuego", wantSite},
+	} {
+		out, err := miniRenderEntry(m, c.entry, c.file, map[string]any{"heading": "Inbox"})
+		r.Eval("slot-in-supplied-content:"+c.name, true, nil)
+		r.Count("stream:slot-in-supplied-content(oracle only)")
+		if got := norm(out); err != nil || got != norm(c.want) {
+			r.Fail("a slot inside supplied content is not filled by (only) what its own template was given", map[string]string{"oracle": "slot-in-supplied-content", "case": c.name},
+				map[string]any{"files": map[string]string{"panel.vuego": string(m["panel.vuego"].Data), c.file: string(m[c.file].Data), "wrap.vuego": string(m["wrap.vuego"].Data)}, "output": got, "expected": c.want, "err": fmt.Sprint(err)})
+		}
+	}
+}
+
+// render one file of a file system through an entry point, with a time limit
+func miniRenderEntry(m fstest.MapFS, entry, file string, data map[string]any) (string, error) {
+	type res struct {
+		out string
+		err error
+	}
+	ch := make(chan res, 1)
+	go func() {
+		var buf bytes.Buffer
+		var err error
+		defer func() {
+			if x := recover(); x != nil {
+				err = fmt.Errorf("PANIC %v", x)
+			}
+			ch <- res{buf.String(), err}
+		}()
+		switch entry {
+		case "render":
+			err = vuego.NewVue(m).Render(&buf, file, data)
+		case "load":
+			err = vuego.NewFS(m).Fill(data).Load(file).Render(context.Background(), &buf)
+		default:
+			err = vuego.NewFS(m).Fill(data).RenderString(context.Background(), &buf, string(m[file].Data))
+		}
+	}()
+	select {
+	case x := <-ch:
+		return x.out, x.err
+	case <-time.After(4 * time.Second):
+		return "", fmt.Errorf("TIMEOUT")
+	}
+}
+
 // one supplied slot content filled several times with different slot props (a slot inside v-for, a slot
 // used twice): every fill shows the content evaluated with ITS props, whatever the content is made of -
 // interpolation, <template v-html>, <p v-html>, <template v-if>, a nested include (direct oracle)
@@ -307,6 +367,7 @@ func c06PerFill(r *Run) {
 }
 
 func runC06(r *Run) {
+	c06SlotInSuppliedContent(r)
 	c06PerFill(r)
 	r.Imports = []string{"Base.Val", "Model.Stack", "Model.Loops", "Model.Include", "Model.Slots"}
 	r.Rule("components with default / named slots a, b (with and without fallback, binding props item / k, inside v-for (on a parent element, on a <template> and on the <slot> tag itself), nested inside another component that forwards an outer slot); includers supplying every subset of the slots " +
